@@ -85,16 +85,21 @@ class Snippet:
                 self._request_exec.end = i - 1
                 self._response_handling.start = i
 
-        self.metadata.segments.extend(
-            [
-                self._full_snippet,
-                self._short_snippet,
-                self._client_init,
-                self._request_init,
-                self._request_exec,
-                self._response_handling,
-            ]
-        )
+        segments = [
+            self._full_snippet,
+            self._short_snippet,
+            self._client_init,
+            self._request_init,
+            self._request_exec,
+        ]
+        if self._response_handling.start:
+            segments.append(self._response_handling)
+        else:
+            # A sample for a method without a response has no response handling
+            # section: the request execution runs to the end of the snippet.
+            self._request_exec.end = self._full_snippet.end
+
+        self.metadata.segments.extend(segments)
 
     @property
     def full_snippet(self) -> str:
